@@ -625,7 +625,8 @@ class Unit:
         done = {}
         i = 0
         while not self.stop.is_set() and (i < len(routes) or not self.done.is_set()) and i < 4 * len(routes):
-            if self.port is None or not self.ready.is_set() or self.down.is_set():
+            if self.port is None or not self.ready.is_set() or self.down.is_set() or self.sim._status == -3:
+                # (while the simulation sits PAUSED the step keys 264/267 would advance it: that is the keyboard scenarios' business)
                 time.sleep(0.001)
                 continue
             name, method, path, body = routes[i % len(routes)]
@@ -2513,7 +2514,9 @@ def tsan_part(c, d):
     open(os.path.join(td, "rebound.html"), "w").write("<html></html>")
     cats = {}
     unexpected = []
-    for mode in ("whfast", "whfast-unsafe", "ias15", "leapfrog", "whfast-late", "leapfrog-late", "ias15-late"):
+    allow = json.load(open(os.path.join(ROOT, "ref", "C19_globals_allow.json")))["writable_globals"]
+    globals_seen = {}
+    for mode in ("whfast", "whfast-unsafe", "ias15", "leapfrog", "whfast-late", "leapfrog-late", "ias15-late", "two"):
         port = free_port()
         env = dict(os.environ, TSAN_OPTIONS="halt_on_error=0 report_signal_unsafe=0 history_size=4 second_deadlock_stack=1 exitcode=0")
         try:
@@ -2546,7 +2549,19 @@ def tsan_part(c, d):
             in_step = ["reb_simulation_step" in f for f in fn]
             in_ser = ["reb_simulation_save_to_stream" in f or "reb_server_start" in f for f in fn]
             in_int = ["reb_simulation_integrate_raw" in f for f in fn]
-            if "Location is file descriptor" in r and "client" in allf:
+            mg = re.search(r"Location is global '([^']+)'", r)
+            if mg:
+                # obligation: no non-const global is written by two simulations' threads (except the allow-listed interrupt flag)
+                gname = mg.group(1)
+                globals_seen[gname] = globals_seen.get(gname, 0) + 1
+                if gname in allow:
+                    cat = "global `%s` (allow-listed): %s" % (gname, "reset by every reb_simulation_integrate / read in the force loops")
+                elif gname.startswith("g_"):
+                    cat = "harness variable"
+                else:
+                    cat = "GLOBAL `%s` shared between simulations" % gname
+                    unexpected.append(r[:1500])
+            elif "Location is file descriptor" in r and "client" in allf:
                 cat = "F20: connection descriptor closed twice by the server thread (fclose + close), number reused by another thread"
             elif not r.lstrip().startswith("data race"):
                 cat = "other: " + r.strip().splitlines()[0][:60]
@@ -2572,7 +2587,7 @@ def tsan_part(c, d):
                 unexpected.append(r[:1500])
             cats[cat] = cats.get(cat, 0) + 1
         c.count(("tsan", mode))
-    c.cov["tsan"] = {"reports_by_category": cats, "unexpected": len(unexpected)}
+    c.cov["tsan"] = {"reports_by_category": cats, "unexpected": len(unexpected), "races_on_globals": globals_seen}
     if unexpected:
         c.corr_break("ThreadSanitizer reports a data race outside the known categories (need_copy, F18): %s" % unexpected[0][:300],
                      {"report": unexpected[0]})
